@@ -6,5 +6,5 @@ CONSTANTS
   TailLen = 3
   MaxBlobs = 1
   FlushFirst = TRUE
-INVARIANTS C09
+INVARIANTS C10_PrefixConsistent
 CHECK_DEADLOCK FALSE
